@@ -14,10 +14,8 @@ Definition nonperb (g : grid) : bool := forallb (fun a => negb (aper a)) g.
 (* centre coordinate x of axis a expressed in (continuous) cell coordinates *)
 Definition gam (a : axis) (x : Q) : Q := (x - alo a) / adisc a.
 
-(* offset of the centre of cell i from the ball centre, in units of the grid spacing *)
-Definition off (a : axis) (x : Q) (i : Z) : Q := inject_Z i + (1 # 2) - gam a x.
-
-(* one lattice row: i belongs to the row iff (h (i + 1/2 - gamma))^2 < s2 *)
+(* offset of the centre of cell i from the ball centre gamma, in units of the grid spacing;
+   one lattice row: i belongs to the row iff (h (i + 1/2 - gamma))^2 < s2 *)
 Definition rowoff (gamma : Q) (i : Z) : Q := inject_Z i + (1 # 2) - gamma.
 Definition rowmem (h gamma s2 : Q) (i : Z) : Prop :=
   (h * rowoff gamma i) * (h * rowoff gamma i) < s2.
